@@ -217,10 +217,15 @@ class RSync:
             and not self._sourcedir.startswith("\\\\?\\")
         ):
             sourcedir = "\\\\?\\" + self._sourcedir
-        try:
-            relpath = os.path.relpath(linkpoint, sourcedir)
-        except ValueError:
-            relpath = None
+        relpath = None
+        if os.path.isabs(linkpoint):
+            # only an absolute link can point into the source tree by name;
+            # a relative one is position independent (and relpath() would
+            # interpret it relative to the current working directory)
+            try:
+                relpath = os.path.relpath(linkpoint, sourcedir)
+            except ValueError:
+                relpath = None
         if (
             relpath is not None
             and relpath not in (os.curdir, os.pardir)
